@@ -1,0 +1,116 @@
+//go:build verif
+
+package graph
+
+// Contracts for the govc verifier (/verif/DESIGN.md). Package clause and comments only.
+
+// ---- Properties: change tracking ----------------------------------------------------------------------
+//
+// Ghost state: the loaded property map L of an entity (Ldom, Lval), fixed when the entity is loaded;
+// no operation assigns it. wf(s) is the representation invariant "Modified/Deleted are disjoint index
+// sets that, applied to the loaded state, reproduce the current map":
+//   * a key is never both modified and deleted,
+//   * a modified key is present, a deleted key is absent,
+//   * a key that is neither modified nor deleted is exactly as loaded.
+// apply(L, delta) == Map is then immediate: take L, drop Deleted, override Modified from Map.
+
+//@ ghost field Properties.Ldom set[string]
+//@ ghost field Properties.Lval seq[any]
+
+//@ pure func wf(s *Properties) bool {
+//@   (s.Modified == nil || s.Modified != s.Deleted)
+//@   && (forall k string :: !(k in s.Modified && k in s.Deleted))
+//@   && (forall k string :: k in s.Modified ==> k in s.Map)
+//@   && (forall k string :: k in s.Deleted ==> !(k in s.Map))
+//@   && (forall k string :: !(k in s.Modified) && !(k in s.Deleted) ==> (k in s.Map) == (k in s.Ldom))
+//@   && (forall k string :: !(k in s.Modified) && !(k in s.Deleted) && k in s.Map ==> s.Map[k] == s.Lval[k])
+//@ }
+//@ pure func sameLoaded(a *Properties, b *Properties) bool { a.Ldom == b.Ldom && a.Lval == b.Lval }
+//@ pure func loadedUnchanged(s *Properties) bool { s.Ldom == old(s.Ldom) && s.Lval == old(s.Lval) }
+
+//@ func NewProperties() *Properties
+//@   nomod
+//@   ensures fresh(result) && result.Map == nil && result.Modified == nil && result.Deleted == nil
+
+//@ func (s *Properties) Set(key string, value any) *Properties
+//@   requires s != nil && wf(s)
+//@   modifies s.Map, s.Modified, contents(s.Map), contents(s.Modified), contents(s.Deleted)
+//@   ensures self: result == s
+//@   ensures wf: wf(s)
+//@   ensures loaded: loadedUnchanged(s)
+//@   ensures written: key in s.Map && s.Map[key] == value && key in s.Modified && !(key in s.Deleted)
+//@   ensures others: forall k string :: k != key ==> (k in s.Map) == old(k in s.Map) && (k in s.Map ==> s.Map[k] == old(s.Map[k])) && (k in s.Modified) == old(k in s.Modified) && (k in s.Deleted) == old(k in s.Deleted)
+//@   ensures deletedField: s.Deleted == old(s.Deleted)
+//@   ensures mapField: (old(s.Map) != nil ==> s.Map == old(s.Map)) && (old(s.Map) == nil ==> fresh(s.Map))
+//@   ensures modifiedField: (old(s.Modified) != nil ==> s.Modified == old(s.Modified)) && (old(s.Modified) == nil ==> fresh(s.Modified))
+
+//@ func (s *Properties) Delete(key string) *Properties
+//@   requires s != nil && wf(s)
+//@   modifies s.Deleted, contents(s.Map), contents(s.Modified), contents(s.Deleted)
+//@   ensures self: result == s
+//@   ensures wf: wf(s)
+//@   ensures loaded: loadedUnchanged(s)
+//@   ensures removed: !(key in s.Map) && key in s.Deleted && !(key in s.Modified)
+//@   ensures others: forall k string :: k != key ==> (k in s.Map) == old(k in s.Map) && (k in s.Map ==> s.Map[k] == old(s.Map[k])) && (k in s.Modified) == old(k in s.Modified) && (k in s.Deleted) == old(k in s.Deleted)
+
+//@ func (s *Properties) SetAll(other map[string]any) *Properties
+//@   requires s != nil && wf(s) && (other == nil || other != s.Map)
+//@   modifies s.Map, s.Modified, contents(s.Map), contents(s.Modified), contents(s.Deleted)
+//@   ensures self: result == s
+//@   ensures wf: wf(s)
+//@   ensures loaded: loadedUnchanged(s)
+//@   ensures written: forall k string :: k in other ==> k in s.Map && s.Map[k] == other[k] && k in s.Modified && !(k in s.Deleted)
+//@   ensures others: forall k string :: !(k in other) ==> (k in s.Map) == old(k in s.Map) && (k in s.Map ==> s.Map[k] == old(s.Map[k])) && (k in s.Modified) == old(k in s.Modified) && (k in s.Deleted) == old(k in s.Deleted)
+//@   loop 0
+//@     invariant wf: wf(s) && loadedUnchanged(s)
+//@     invariant fields: (s.Map == old(s.Map) || fresh(s.Map)) && (s.Modified == old(s.Modified) || fresh(s.Modified)) && s.Deleted == old(s.Deleted)
+//@     invariant otherSame: (forall k string :: (k in other) == old(k in other) && other[k] == old(other[k])) && (other == nil || other != s.Map)
+//@     invariant done: forall k string :: k in visited ==> k in other && k in s.Map && s.Map[k] == other[k] && k in s.Modified && !(k in s.Deleted)
+//@     invariant rest: forall k string :: !(k in visited) ==> (k in s.Map) == old(k in s.Map) && (k in s.Map ==> s.Map[k] == old(s.Map[k])) && (k in s.Modified) == old(k in s.Modified) && (k in s.Deleted) == old(k in s.Deleted)
+
+//@ func (s *Properties) Exists(key string) bool
+//@   requires s != nil
+//@   nomod
+//@   ensures result == (key in s.Map)
+
+//@ func (s *Properties) Len() int
+//@   requires s != nil
+//@   nomod
+//@   ensures result == len(s.Map)
+
+//@ func (s *Properties) MapOrEmpty() map[string]any
+//@   nomod
+//@   ensures forall k string :: (k in result) == (s != nil && k in s.Map)
+//@   ensures forall k string :: k in result ==> result[k] == s.Map[k]
+
+//@ func (s *Properties) Clone() *Properties
+//@   requires s != nil && wf(s)
+//@   nomod
+//@   ghostset result.Ldom := s.Ldom
+//@   ghostset result.Lval := s.Lval
+//@   ensures fresh: fresh(result)
+//@   ensures wf: wf(result) && sameLoaded(result, s)
+//@   ensures sameMap: forall k string :: (k in result.Map) == (k in s.Map) && (k in s.Map ==> result.Map[k] == s.Map[k])
+//@   ensures sameModified: forall k string :: (k in result.Modified) == (k in s.Modified)
+//@   ensures sameDeleted: forall k string :: (k in result.Deleted) == (k in s.Deleted)
+//@   ensures independent: (s.Map == nil ==> result.Map == nil) && (s.Map != nil ==> fresh(result.Map)) && (s.Modified == nil ==> result.Modified == nil) && (s.Modified != nil ==> fresh(result.Modified)) && (s.Deleted == nil ==> result.Deleted == nil) && (s.Deleted != nil ==> fresh(result.Deleted))
+//@   loop 0
+//@     invariant copied: forall k string :: k in visited ==> k in s.Map && k in newProperties.Map && newProperties.Map[k] == s.Map[k]
+//@     invariant only: forall k string :: k in newProperties.Map ==> k in visited
+//@   loop 1
+//@     invariant copied: forall k string :: k in visited ==> k in s.Modified && k in newProperties.Modified
+//@     invariant only: forall k string :: k in newProperties.Modified ==> k in visited
+//@   loop 2
+//@     invariant copied: forall k string :: k in visited ==> k in s.Deleted && k in newProperties.Deleted
+//@     invariant only: forall k string :: k in newProperties.Deleted ==> k in visited
+
+//@ func (s *Properties) ModifiedProperties() map[string]any
+//@   requires s != nil && wf(s)
+//@   nomod
+//@   ensures keys: forall k string :: (k in result) == (k in s.Modified)
+//@   ensures values: forall k string :: k in result ==> result[k] == s.Map[k]
+//@   ensures independent: fresh(result)
+//@   loop 0
+//@     invariant copied: forall k string :: k in visited ==> k in s.Modified && k in properties && properties[k] == s.Map[k]
+//@     invariant only: forall k string :: k in properties ==> k in visited
+//@     invariant fresh: fresh(properties)
